@@ -175,6 +175,16 @@ Fixpoint tree_has_dollar (t : tree) : bool :=
 
 Inductive rres := RNone | RVal (t : tree) | ROutside | RFuel.
 
+(* number of nodes and characters of a variable table: bounds the number of distinct values the resolver can meet *)
+Fixpoint tree_size (t : tree) : nat :=
+  match t with
+  | Leaf (SStr s) => S (length s)
+  | Leaf _ => 1
+  | Lst ts => S (fold_right (fun c n => (tree_size c + n)%nat) 0%nat ts)
+  | Dict kvs => S (fold_right (fun kv n => (tree_size (snd kv) + n)%nat) 0%nat kvs)
+  end.
+Definition vars_size (vars : vtab) : nat := fold_right (fun kv n => (tree_size (snd kv) + n)%nat) 0%nat vars.
+
 (* one resolution; the inner while-loop is [chase] *)
 Fixpoint resolve_ref (fuel : nat) (vars : vtab) (seen : list str) (reference : str) {struct fuel} : rres :=
   match fuel with
@@ -189,7 +199,8 @@ Fixpoint resolve_ref (fuel : nat) (vars : vtab) (seen : list str) (reference : s
           let seen' := seen ++ [name] in
           (* while "$" in str(value): reference = str(value); value = resolve(reference) *)
           let chased :=
-            (fix chase (g : nat) (value : option tree) (last_ref : option str) {struct g} : rres * option str :=
+            (fix chase (g : nat) (value : option tree) (last_ref : option str) (tried : list str) {struct g}
+               : rres * option str :=
                match g with
                | O => (RFuel, last_ref)
                | S g' =>
@@ -198,15 +209,17 @@ Fixpoint resolve_ref (fuel : nat) (vars : vtab) (seen : list str) (reference : s
                    | Some t =>
                        if tree_has_dollar t then
                          let r2 := py_str_tree t in
+                         (* repaired: a reference text that was tried before is unresolvable *)
+                         if existsb (str_eqb r2) tried then (RNone, last_ref) else
                          match resolve_ref f vars seen' r2 with
-                         | RVal t' => chase g' (Some t') (Some r2)
+                         | RVal t' => chase g' (Some t') (Some r2) (r2 :: tried)
                          | RNone => (RNone, Some r2)
                          | ROutside => (ROutside, Some r2)
                          | RFuel => (RFuel, Some r2)
                          end
                        else (RVal t, last_ref)
                    end
-               end) (S (length vars)) (Some v0) None in
+               end) (S (vars_size vars)) (Some v0) None [] in
           let '(val, last_ref) := chased in
           let name' := match last_ref with Some r2 => ref_name r2 | None => name end in
           match val with
